@@ -127,6 +127,9 @@ func (i *Importer) Add(exportNode *ExportNode) error {
 	if exportNode == nil {
 		return errors.New("node cannot be nil")
 	}
+	if exportNode.Version < 0 {
+		return fmt.Errorf("node version %v can't be negative", exportNode.Version)
+	}
 	if exportNode.Version > i.version {
 		return fmt.Errorf("node version %v can't be greater than import version %v",
 			exportNode.Version, i.version)
